@@ -471,6 +471,11 @@ def run_trace(params: dict) -> tuple[dict, dict]:
     else:
         pot, bounds = Schwefel(), [(-500.0, 500.0)] * params.get("dim", 2)
     coords = StandardCoordinates(ndim=len(bounds), bounds=bounds)
+    if params.get("start_dtype") == "float32":
+        coords.position = coords.position.astype(np.float32)        # a start point loaded from single-precision data
+    elif params.get("start_dtype") == "int64":
+        coords.position = np.array([int(round(0.4 * b[1])) * (1 if i % 2 == 0 else -1) for i, b in enumerate(bounds)],
+                                   dtype=np.int64)                   # a start point typed by hand as integers
     rec = {"entries": [], "lefts": [], "min_inputs": [], "metro": {}, "gated": {}, "bond_calls": {},
            "nets": [], "draws": {}, "error": None, "near_tie": False, "outputs": []}
     st = {"t": -1}
@@ -557,6 +562,8 @@ def trace_params(ctx: Ctx) -> list[dict]:
     for _ in range(ctx.scale(6, 30)):
         out.append({"surface": "camelback", "seed": rng.randrange(10 ** 6), "T": rng.choice([1e-6, 0.1, 1.0, 5.0]),
                     "step": rng.choice([0.7, 1.5, 2.5]), "n_steps": rng.randrange(15, 41)})
+        if _ % 3 == 1:
+            out[-1]["start_dtype"] = rng.choice(["float32", "int64"])
     for _ in range(ctx.scale(4, 20)):
         out.append({"surface": "schwefel", "dim": rng.choice([2, 3]), "seed": rng.randrange(10 ** 6),
                     "T": rng.choice([1.0, 100.0, 500.0]), "step": rng.choice([0.1, 0.3]), "prop": True,
@@ -829,7 +836,94 @@ def bond_oracle_predicate(pts, cutoff) -> tuple[str, str, dict] | None:
     return None
 
 
+ETHANOL = (["C", "C", "O", "H", "H", "H", "H", "H", "H"],
+           [[0.0072, -0.5687, 0.0], [-1.2854, 0.2499, 0.0], [1.1304, 0.3147, 0.0], [0.0392, -1.1972, 0.89],
+            [0.0392, -1.1972, -0.89], [-1.3175, 0.8784, 0.89], [-1.3175, 0.8784, -0.89], [-2.1422, -0.4239, 0.0],
+            [1.9857, -0.1365, 0.0]])
+COVALENT = {"H": 0.31, "C": 0.76, "O": 0.66}       # Cordero et al. 2008, the radii ase's natural cutoffs are
+SKIN = 0.3                                          # ase.neighborlist: pairs within r_i + r_j + 2 * skin are neighbours
+
+
+def molecular_bonds_reference(labels, pts):
+    """(sorted label pairs of the bonded atom pairs, smallest margin to a threshold): written here from the
+    documented rule, no ase / networkx"""
+    out, margin = [], 1e9
+    for i in range(len(pts)):
+        for j in range(i + 1, len(pts)):
+            d = float(np.sqrt(np.sum((pts[i] - pts[j]) ** 2)))
+            thr = COVALENT[labels[i]] + COVALENT[labels[j]] + 2 * SKIN
+            margin = min(margin, abs(d - thr))
+            if d < thr:
+                out.append(tuple(sorted((labels[i], labels[j]))))
+    return sorted(out), margin
+
+
+def molecular_bond_cases(rng, count: int):
+    """ethanol: rigid motions and small distortions (bonding intact), one bond stretched (a bond fewer), a hydrogen
+    moved from a carbon onto the oxygen or onto the other carbon (SAME number of bonds, and for the oxygen the same
+    KINDS of bond, but one C-H fewer and one O-H more)"""
+    labels, ref = ETHANOL[0], np.array(ETHANOL[1])
+    for _ in range(count):
+        kind = rng.choice(["rigid", "distorted", "stretched", "h-to-oxygen", "h-to-oxygen", "h-to-carbon"])
+        pts = ref.copy()
+        if kind == "distorted":
+            pts += np.array([[rng.uniform(-0.04, 0.04) for _ in range(3)] for _ in range(len(pts))])
+        elif kind == "stretched":
+            h = rng.choice([3, 4, 5, 6, 7, 8])
+            heavy = min((0, 1, 2), key=lambda a: float(np.linalg.norm(ref[a] - ref[h])))
+            pts[h] = ref[heavy] + (ref[h] - ref[heavy]) * rng.uniform(2.2, 3.0)
+        elif kind.startswith("h-to"):
+            h = rng.choice([3, 4, 5, 6, 7])
+            target = 2 if kind == "h-to-oxygen" else rng.choice([0, 1])
+            best = None
+            for _try in range(60):
+                u = np.array([rng.gauss(0, 1) for _ in range(3)])
+                u /= np.linalg.norm(u)
+                cand = ref[target] + u * (0.97 if target == 2 else 1.09)
+                trial = pts.copy()
+                trial[h] = cand
+                m = molecular_bonds_reference(labels, trial)[1]
+                if best is None or m > best[0]:
+                    best = (m, cand)
+            pts[h] = best[1]
+        q = np.linalg.qr(np.array([[rng.gauss(0, 1) for _ in range(3)] for _ in range(3)]))[0]
+        pts = pts @ q.T + np.array([rng.uniform(-2, 2) for _ in range(3)])
+        if molecular_bonds_reference(labels, pts)[1] < 0.1:
+            continue                       # a pair within 0.1 A of its threshold: no verdict
+        yield kind, pts
+
+
+def molecular_bond_predicate(pts) -> tuple[str, str, dict] | None:
+    """`MolecularCoordinates.same_bonds` (the gate of molecular basin-hopping) against the documented rule: the bonds
+    of the geometry asked about are, kind by kind and WITH their multiplicities, those of the reference geometry"""
+    from topsearch.data.coordinates import MolecularCoordinates
+    labels, ref = ETHANOL[0], np.array(ETHANOL[1])
+    pts = np.asarray(pts, dtype=float)
+    c = MolecularCoordinates(list(labels), ref.ravel().copy())
+    c.position = pts.ravel().copy()
+    want_ref, _m = molecular_bonds_reference(labels, ref)
+    have, _m2 = molecular_bonds_reference(labels, pts)
+    got, want = bool(c.same_bonds()), have == want_ref
+    if got != want:
+        from collections import Counter
+        return ("bonding-test:same_bonds:molecular", f"ethanol: same_bonds() says {'intact' if got else 'changed'}; the "
+                f"geometry has the bonds {dict(Counter('-'.join(b) for b in have))}, the reference "
+                f"{dict(Counter('-'.join(b) for b in want_ref))}", {"molecular_bond_oracle": {"pts": pts.tolist()}})
+    return None
+
+
 def bond_oracle(ctx: Ctx) -> None:
+    try:
+        done = False
+        for kind, pts in molecular_bond_cases(ctx.rng, ctx.scale(24, 200)):
+            r = molecular_bond_predicate(pts)
+            ctx.stats.case({"stream": "predicate-bonding-test-molecular", "kind": kind}, True)
+            ctx.contract("same_bonds (molecular)", r is None)
+            if r and not done:
+                done = True
+                ctx.fail(*r)
+    except ImportError as e:                 # ase / rdkit missing would be infrastructure, not a verdict
+        ctx.stats.notes["molecular-bond-oracle"] = f"skipped ({e})"
     done = False
     for kind, pts, cutoff in bond_oracle_cases(ctx.rng, ctx.scale(150, 1500)):
         r = bond_oracle_predicate(pts, cutoff)
@@ -889,6 +983,11 @@ def predicates(ctx: Ctx) -> None:
 def replay(ctx: Ctx, data: dict) -> bool:
     if "bond_oracle" in data:
         r = bond_oracle_predicate(data["bond_oracle"]["pts"], data["bond_oracle"]["cutoff"])
+        if r:
+            print(f"  {r[0]}: {r[1]}")
+        return r is None
+    if "molecular_bond_oracle" in data:
+        r = molecular_bond_predicate(data["molecular_bond_oracle"]["pts"])
         if r:
             print(f"  {r[0]}: {r[1]}")
         return r is None
